@@ -114,6 +114,17 @@ def r_accept(ck: Checker) -> None:
         back = itp.loop_back.get(id(inner_l), [])
         ck.add("every atom over a non-static predicate makes the aggregate dynamic", not back and itp.reachable(inner_l), ds, inner_l, f"under `not is_static(..)` an atom can be passed over: {bool(back)}",  # type: ignore[arg-type]
                "testing has_domain instead of is_static overlooks choice-dependent predicates that got a domain: their domain atoms inside a bounded #count/#sum under-approximate")
+    # an aggregate literal is declared harmless only after ALL its atoms were looked at
+    c0 = ds.params()[0]  # type: ignore[union-attr]
+    outer_l = inner_l
+    while outer_l is not None and enclosing_loop(ds, outer_l) is not None:  # type: ignore[arg-type]
+        outer_l = enclosing_loop(ds, outer_l)  # type: ignore[arg-type]
+    if outer_l is not None:
+        for kind in ("BodyAggregate", "Aggregate"):
+            itk = ck.interp(ds, Pins.of(vals={f"{c0}.ast_type": "ASTType.Literal", f"{c0}.atom.ast_type": f"ASTType.{kind}"}, entry=True), mark_stmts={id(outer_l): "scanned"})  # type: ignore[arg-type]
+            early = [unparse(r) for r, st in itk.returns if not is_const(r.value, True) and "scanned" not in st.marks]
+            ck.add(f"a {kind} condition is called static only after its elements were scanned", not early and bool(itk.returns), ds, outer_l, f"negative answers before the scan of the elements: {early}",  # type: ignore[arg-type]
+                   "an aggregate with only bounds (`#count{Y : b(Y)} <= 1`) over a choice predicate is as dynamic as an assignment: with __dom_b inside, the condition gets stronger and the domain misses values")
     okk, n = True, 0
     pred = None
     st_ret = [r for r in returns_of(func) if is_const(r.value, True) and not any(x is r for x in ast.walk(rloop))]
@@ -194,6 +205,14 @@ def r_next_template(ck: Checker) -> None:
         ck.add(sig, body.startswith(first), func, r, f"body starts `{short(body, 150)}`", "the successor relation is generated from the least element upwards, per group")
         ck.add("N5 N is a larger domain value of the same group with no domain value strictly between", body == first + common, func, r, f"body `{short(body[len(first):], 260)}`",
                "`N > P` and `not dom(B) : dom(B), P < B < N` make next the IMMEDIATE successor; a non-strict or missing bound adds or loses links and the chain sums are off")
+    # no early exit that forgets the position
+    for early in [r for r in returns_of(func) if r.value is None]:
+        gate = parent(func, enclosing_stmt(func, early))
+        test = unparse(gate.test) if isinstance(gate, ast.If) else ""
+        names_t = {n.id for n in ast.walk(gate.test) if isinstance(n, ast.Name)} if isinstance(gate, ast.If) else set()
+        ok_e = {func.params()[1], pos} <= names_t
+        ck.add("the min/max/next rules are produced for every (predicate, position) that is asked for", ok_e, func, early, f"early `return` under `{short(test, 80)}`",
+               "the generated names depend on the position: remembering only the predicate leaves __min/__max/__next of a second position undefined (empty)")
     # guards
     rs = [n for n in find_nodes(func.node, lambda n: isinstance(n, ast.Raise))]
     ck.add("N6 refuses predicates without a domain and positions beyond the arity", len(rs) == 2, func, func.node, f"{len(rs)} raise statements", "", nontrivial=False)
